@@ -71,6 +71,13 @@ func (t *ProcessorTask) Open(ctx context.Context) error {
 	t.logger.Debug(ctx).Msg("opening processor")
 	err := t.processor.Open(ctx)
 	if err != nil {
+		// A task whose Open failed is not registered for rollback by the
+		// caller, so nobody would ever tear this processor down: its
+		// Instance.running flag would stay set and every later Start would be
+		// refused with ErrProcessorRunning. Release it here.
+		if tdErr := t.processor.Teardown(ctx); tdErr != nil {
+			t.logger.Err(ctx, tdErr).Msg("failed to tear down processor after a failed open")
+		}
 		return cerrors.Errorf("failed to open processor: %w", err)
 	}
 	t.logger.Debug(ctx).Msg("processor open")
